@@ -27,6 +27,26 @@ fn main() {
                 std::process::exit(2)
             }
         },
+        "dump-corpus" => {
+            // seeds for the libFuzzer targets: RFC examples, valid and invalid
+            let dir = std::path::PathBuf::from(&args[2]);
+            let _ = std::fs::create_dir_all(dir.join("accrej"));
+            let _ = std::fs::create_dir_all(dir.join("nopanic"));
+            let mut n = 0;
+            let mut all: Vec<String> = jpv::rfc::valid_queries();
+            all.extend(jpv::rfc::invalid_queries().into_iter().map(|x| x.0));
+            all.extend(jpv::rfc::eval_rows().into_iter().map(|r| r.query));
+            for q in all {
+                let _ = std::fs::write(dir.join("accrej").join(format!("seed{:04}", n)), q.as_bytes());
+                let mut b = q.as_bytes().to_vec();
+                b.push(0xFF);
+                b.extend_from_slice(br#"{"a":[1,{"b":"x","a":[2,3]}],"b":{"a":null}}"#);
+                let _ = std::fs::write(dir.join("nopanic").join(format!("seed{:04}", n)), b);
+                n += 1;
+            }
+            println!("{} seeds", n);
+            std::process::exit(0)
+        }
         "once" => std::process::exit(jpv::props::c12::once_main()),
         "probe" => {
             let n: usize = args.get(3).and_then(|s| s.parse().ok()).unwrap_or(1);
